@@ -1,33 +1,31 @@
 package main
 
 import (
+	"encoding/base64"
+	"encoding/json"
 	"fmt"
+	"os"
 
-	"verif/internal/gen"
-	"verif/internal/props"
+	"verif/internal/mon"
+	"verif/internal/ref"
 )
 
 func main() {
-	cd := props.Codec(".201")
-	info := props.FrameInfo(7, 18, 16, 13, 1, 0, 0)
-	px := gen.PackN(gen.Content(gen.New(3), "noise", 7, 18, 1, 13, 0), 2)
-	enc := props.NewPD(info)
-	if err := cd.Encode(props.NewPD(info, px), enc, nil); err != nil {
-		panic(err)
-	}
-	cs := enc.Frames[0]
-	buf := make([]byte, len(cs)+32)
-	copy(buf, cs)
-	for i := len(cs); i < len(buf); i++ {
-		buf[i] = 0xA5
-	}
-	in := buf[:len(cs)]
-	keep := append([]byte(nil), buf...)
-	dec := props.NewPD(info)
-	fmt.Println(cd.Decode(props.NewPD(info, in), dec, nil))
-	for i := range buf {
-		if buf[i] != keep[i] {
-			fmt.Printf("byte %d (len %d): %02x -> %02x\n", i, len(cs), keep[i], buf[i])
+	for _, f := range os.Args[1:] {
+		rp, err := mon.LoadReplay(f)
+		if err != nil {
+			panic(err)
+		}
+		var c struct {
+			Entry string
+			Data  string
+			FI    []int
+		}
+		json.Unmarshal(rp.Desc, &c)
+		d, _ := base64.StdEncoding.DecodeString(c.Data)
+		fmt.Printf("== %s class=%s entry=%s len=%d fi=%v\n", f, rp.Class, c.Entry, len(d), c.FI)
+		if inf, err := ref.WalkJ2K(d); inf != nil {
+			fmt.Printf("   walk err=%v SIZ=%+v\n   COD=%+v\n   QCD=%+v tileparts=%d\n", err, inf.SIZ, inf.COD, inf.QCD, len(inf.TileParts))
 		}
 	}
 }
